@@ -113,3 +113,15 @@ Theorem C20_negation_mirrors_the_specified_result p emin_ emax_ mode E :
   spec_round_nz p emin_ emax_ (mirror mode) (flip_exact E) = flip_sround (spec_round_nz p emin_ emax_ mode E).
 Proof. exact (spec_mirror p emin_ emax_ mode E). Qed.
 Print Assumptions C20_negation_mirrors_the_specified_result.
+
+(* scaling by a power of ten scales the specified result while both stay in the normal range and neither overflows: the
+   coefficient and the flags are unchanged, the exponent moves by j.  (Mul/Quo: scaling one operand scales the exact
+   product/quotient by construction of exact_mul / exact_quo; Add/Sub/Rem: scaling both operands.) *)
+Theorem C20_scaling_scales_the_specified_result p emin_ emax_ mode E j :
+  let k := mag_frac (xnum E) (xden E) + xexp E in
+  emin_ <= k - 1 -> emin_ <= k + j - 1 ->
+  s_overflow (spec_round_nz p emin_ emax_ mode E) = false ->
+  s_overflow (spec_round_nz p emin_ emax_ mode (shift_exact E j)) = false ->
+  spec_round_nz p emin_ emax_ mode (shift_exact E j) = shift_sround (spec_round_nz p emin_ emax_ mode E) j.
+Proof. exact (spec_scale p emin_ emax_ mode E j). Qed.
+Print Assumptions C20_scaling_scales_the_specified_result.
